@@ -75,9 +75,9 @@ Fixpoint hist_okp (x : pw) (ops : list pop) : bool :=
   | o :: r => op_ok x o && hist_okp (fst (pstep x o)) r
   end.
 
-(** min <= 0 and keep_alive <= 0 (an idle worker always exits), max >= 1, the clock fits u64 *)
+(** min <= 0 (the last idle worker may exit; any keep-alive), max >= 1, the clock is a u64 *)
 Definition cfg_ok (clock : Z) (cfg : Z * Z * Z) : bool :=
-  (fst (fst cfg) <=? 0) && (snd cfg <=? 0) && (1 <=? snd (fst cfg)) && (clock <=? U64MAX).
+  (fst (fst cfg) <=? 0) && (1 <=? snd (fst cfg)) && (0 <=? clock) && (clock <=? U64MAX).
 
 Definition wf_pool1 (clock : Z) (cfg : Z * Z * Z) (ops : list pop) : bool :=
   cfg_ok clock cfg && hist_okp (pw0 clock [cfg]) ops.
